@@ -5,5 +5,5 @@ From Coq Require Import List ZArith NArith.
 From Coq.Strings Require Import Byte.
 From Muduo Require Import Base_Bytes Conn_Model.
 Extraction "model.ml" Conn_Model.step Conn_Model.init Conn_Model.run_batch Conn_Model.uses_kernel
-  Conn_Model.xstep Conn_Model.xinit
+  Conn_Model.xstep Conn_Model.xinit Conn_Model.timer_due
   Base_Bytes.xbyte_of_N Base_Bytes.xN_of_byte Base_Bytes.xanchor.
